@@ -219,8 +219,40 @@ Definition read_msg (fr : bytes) : rres :=
   | TOk (BData d) => RData d
   end.
 
-(* ReadHeader hands the frame to proto.Unmarshal(_, Header): opaque *)
+(* ReadHeader hands the frame to proto.Unmarshal(_, Header); the frame as such: *)
 Definition read_header (fr : bytes) : bytes := fr.
+
+(* streammsg.v1.Header { map<string, google.protobuf.Value> header = 1; } at the level of the map
+   framing: repeated field 1 of entries { string key = 1; Value value = 2; }.  Marshal always
+   writes both members of an entry (no zero omission) in an unspecified entry order; Unmarshal
+   takes the last key/value inside an entry, skips unknown fields, validates the key as UTF-8 and
+   lets a later entry with the same key replace the earlier one.  The Value is an opaque byte
+   string here (its own Unmarshal is not modelled).  A Go nil map and an empty map are both [[]]. *)
+Definition hentry := (bytes * bytes)%type.
+Definition enc_hentry (e : hentry) : bytes := enc_fields [(1, WLen (fst e)); (2, WLen (snd e))].
+Definition enc_header (h : list hentry) : bytes :=
+  enc_fields (map (fun e => (1, WLen (enc_hentry e))) h).
+
+Fixpoint hset (k v : bytes) (h : list hentry) : list hentry :=
+  match h with
+  | [] => [(k, v)]
+  | (k', v') :: r => if bytes_eqb k k' then (k, v) :: r else (k', v') :: hset k v r
+  end.
+Definition entry_apply (e : hentry) (f : field) : tri hentry :=
+  match f with
+  | (1, WLen b) => if utf8_valid b then TOk (b, snd e) else TBad
+  | (2, WLen b) => TOk (fst e, b)
+  | _ => TOk e
+  end.
+Definition decode_hentry (b : bytes) : tri hentry :=
+  tbind (parse_fields b) (fun fs => tfold entry_apply fs ([], [])).
+Definition header_apply (h : list hentry) (f : field) : tri (list hentry) :=
+  match f with
+  | (1, WLen b) => tbind (decode_hentry b) (fun e => TOk (hset (fst e) (snd e) h))
+  | _ => TOk h
+  end.
+Definition decode_header (b : bytes) : tri (list hentry) :=
+  tbind (parse_fields b) (fun fs => tfold header_apply fs []).
 
 (* the results of successive ReadMsg calls on a byte stream that then ends *)
 Definition read_all (stream : bytes) : list rres * rend :=
@@ -231,3 +263,49 @@ Definition read_all (stream : bytes) : list rres * rend :=
 Definition data_body_len (n : N) : N := 1 + len_of (varint_enc n) + n.      (* 0a ++ varint n ++ data *)
 Definition data_frame_prefix (n : N) : bytes := be len_size (data_body_len n) ++ 10 :: varint_enc n.
 Definition data_frame_accepted (n : N) : bool := data_body_len n <=? max_msg.
+
+(* ======================================================================================== *)
+(* Pull view with SEVERAL reader objects over ONE byte source.  Production wraps the same libp2p
+   stream twice (newMetadataStream for the header exchange, then newStream for the messages); each
+   wrapper owns a msgio reader.  A reader object has a private buffer; [ahead] is how many bytes
+   beyond what it needs it takes from the source when it has to read (0 for msgio, which uses
+   io.ReadFull on exactly 4 and then exactly n bytes; positive for a buffered reader underneath).
+   [src] = the bytes of the stream not yet taken by any reader (the stream then ends). *)
+Record mreader := { mbuf : bytes; mstuck : bool }.
+Definition mr_init : mreader := {| mbuf := []; mstuck := false |}.
+
+Inductive pull_res := PFrame (b : bytes) | PEnd | PTooLarge.
+
+(* make the private buffer hold at least k bytes if the source allows *)
+Definition want (ahead k : nat) (buf src : bytes) : bytes * bytes :=
+  if Nat.ltb (length buf) k then
+    let t := (k - length buf + ahead)%nat in (buf ++ firstn t src, skipn t src)
+  else (buf, src).
+
+Definition pull (ahead : nat) (r : mreader) (src : bytes) : pull_res * mreader * bytes :=
+  if mstuck r then (PTooLarge, r, src)
+  else
+    let '(b1, s1) := want ahead len_size (mbuf r) src in
+    if Nat.ltb (length b1) len_size then (PEnd, {| mbuf := b1; mstuck := false |}, s1)
+    else
+      let n := unbe (firstn len_size b1) in
+      if n =? 0 then (PFrame [], {| mbuf := skipn len_size b1; mstuck := false |}, s1)
+      else if max_msg <? n then (PTooLarge, {| mbuf := b1; mstuck := true |}, s1)
+      else
+        let '(b2, s2) := want ahead (len_size + N.to_nat n) b1 s1 in
+        if Nat.ltb (length b2) (len_size + N.to_nat n) then (PEnd, {| mbuf := b2; mstuck := false |}, s2)
+        else (PFrame (firstn (N.to_nat n) (skipn len_size b2)),
+              {| mbuf := skipn (len_size + N.to_nat n) b2; mstuck := false |}, s2).
+
+(* a sequence of reads, each on reader A (true: the metadata stream) or B (false: the data stream) *)
+Fixpoint pull_seq (aheadA aheadB : nat) (which : list bool) (ra rb : mreader) (src : bytes)
+  : list pull_res * (mreader * mreader * bytes) :=
+  match which with
+  | [] => ([], (ra, rb, src))
+  | true :: w =>
+      let '(res, ra', src') := pull aheadA ra src in
+      let '(rs, fin) := pull_seq aheadA aheadB w ra' rb src' in (res :: rs, fin)
+  | false :: w =>
+      let '(res, rb', src') := pull aheadB rb src in
+      let '(rs, fin) := pull_seq aheadA aheadB w ra rb' src' in (res :: rs, fin)
+  end.
